@@ -279,9 +279,17 @@ Definition chk_C20_pair (a b : src) (o : pair_obs) : N :=
       || maps_differ (get_map (nth_ans (po_a o) 4)) (get_map (nth_ans (po_b o) 4)) in
     if differ then
       if hevs_eqb (get_hash (nth_ans (po_a o) 0)) (get_hash (nth_ans (po_b o) 0)) then
-        (* K6: the ingredient sequences fed to the hasher coincide by design - a ConcatSource
-           does not delimit its children *)
-        (if hevs_eqb (hash_events a) (hash_events b) then 56 else 1)
+        (* the ingredient sequences fed to the hasher coincide by design.
+           K6 (56): a ConcatSource does not delimit its children - possible only when one of the
+           trees is not `delimited` (Sem/HashEq.v).  When both are, the hasher stream is
+           injective up to what the hash deliberately ignores (Props/C20.v C20_injective:
+           norm a = norm b): the pair is outside the quantifier of the property ("trees that
+           differ in something observable") and what differs in the recorded observations comes
+           from the excluded SourceMapSource name, from cache sharing or from the two histories
+           (K2 / K7 / re-encoded cached maps; Proofs/HashChkDelim.v), none of which is K6: 100 *)
+        (if hevs_eqb (hash_events a) (hash_events b) then
+           (if delimited a && delimited b then 100 else 56)
+         else 1)
       else if po_eq o then 2
       else 0
     else 0.
